@@ -36,3 +36,11 @@ chk("C43", "log-vs-bloom monitor on committed blocks + exact bit-for-bit compari
 chk("C35", "history monitor over the real pool -> proposer selection -> ledger commit pipeline with per-block and per-replacement oracles; race detector on concurrent submitters (thorough)",
     "60/1500 seeded histories over 4 funded EVM senders drive txnpool/common.TXPool as the pool server does, select block content exactly like solo.makeBlock/vbft.makeProposal (GetTxPool + IncrementValidator.Verify with the validator's block range), really execute and commit the block (EVM nonces really move), then AddBlock/CleanCompletedTransactionList. Every proposed block: no duplicate hash, nothing already on chain, per sender consecutive nonces starting at the ledger account nonce, block accepted by the ledger. Every accepted same-nonce replacement: strictly higher gas price and the replaced tx is never proposed.",
     "stateful door checks and re-verification of expired entries are mirrored by the harness; the server's actor/worker plumbing is not driven")
+
+chk("C18", "round-trip / canonicity / cursor-model monitor with an independent reference codec and canary-guarded buffers; race detector + checkptr in thorough",
+    "Every primitive written by the zero-copy sink must equal an independent reference encoding and read back identically with exact consumption (single values and mixed lists, through both codecs and crosswise); every non-minimal VarUint form must be reported irregular by all six source/reader entry points; 24 source operations in random sequences on hostile fragment-built inputs must match a cursor model (eof exactly on overrun, Pos<=Size, returned slices inside the input - observed via canaries and spare capacity); the io.Reader codec must not allocate beyond input+constant on hostile length prefixes.",
+    "1.9M (quick) / 9.7M (thorough) evaluations; serialization.ReadVarUint accepting non-minimal forms is recorded as an observation (the statement's canonicity clause is on the zero-copy source)")
+
+chk("C22", "round-trip + exhaustive single-edit mutation monitor against an independent base58check reference",
+    "For 500 / 20000 addresses (incl. all-zero, all-ones, one-bit) every single-character substitution (57 symbols + 6 non-symbols), deletion, insertion and adjacent transposition of the base58 string, all single hex edits, and arbitrary strings (long, leading 1s, other versions, wrong checksums, junk) are decoded by the real code and by an independent reference implementation; accept/reject and the decoded address must agree, an accepted string must re-encode to itself, hex encodings round-trip.",
+    "2.8M (quick) / 112M (thorough) evaluations")
